@@ -81,6 +81,10 @@ func (p propC04) Gen(r *Rng, tier string) *World {
 	} else if r.P(0.5) {
 		k.FailOp = true
 	}
+	k.TupleOp = r.P(0.25)
+	if k.TupleOp && k.NOps == 0 {
+		k.NOps = r.Range(1, 3)
+	}
 	g := NewGen(r, k)
 	w := &World{Prop: p.id}
 	// bias towards programs that mention several variables
@@ -144,7 +148,7 @@ func (p propC04) Gen(r *Rng, tier string) *World {
 	}
 	w.Cfg = g.C
 	w.Cfg.ViaDirect = r.P(0.2)
-	w.Cfg.DirStyle = r.Intn(6)
+	w.Cfg.DirStyle = r.Intn(8)
 	w.Cfg.ViaAPI = r.P(0.4)
 	w.Cfg.Event = []string{"", "", "", "", "report"}[r.Intn(5)]
 	m1 := r.Intn(16)
